@@ -153,6 +153,8 @@ func runC09(c *Ctx) {
 		}
 	}
 	ruleSASLDecode(c)
+	R.Rule("R-helo-before-newsession", "E2", "\"AUTH needs a prior greeting\": the greeted flag (Conn.helo) is cleared again when the greeting's NewSession fails", 1)
+	obHeloFollowsNewSession(c)
 	ruleTypeAssertGuarded(c) // AUTH on a backend without AuthSession is a refusal, not a panic
 
 	ruleNoPartialLine(c)
@@ -359,6 +361,30 @@ func ruleAuthAllowedDef(c *Ctx) {
 			}
 		})
 	}
+	// the TLS state is read off the dynamic type of Conn.conn: what the accept loop hands to newConn is the listener's
+	// connection itself — wrapped in a package type (a close-once guard, a counting conn) an implicit-TLS connection
+	// is no longer a *tls.Conn and passes for plaintext (STARTTLS offered inside TLS, AUTH refused with 523)
+	nNew := 0
+	for _, g := range c.P.AllFuncs() {
+		if !inSmtp(g) {
+			continue
+		}
+		allInstrs(g, func(in ssa.Instruction) {
+			if !isStaticCall(in, "newConn") {
+				return
+			}
+			nNew++
+			leaves := leafSources(callCommon(in).Args[0])
+			good := len(leaves) > 0
+			for _, l := range leaves {
+				if !strings.HasSuffix(l, "Accept#0") {
+					good = false
+				}
+			}
+			R.Ob(c.siteKey(in, "connection handed to newConn is the accepted one, unwrapped"), c.P.InstrPos(in), good, fmt.Sprintf("newConn receives %v, not the listener's connection: the *tls.Conn assertion behind TLSConnectionState fails for implicit-TLS connections", leaves))
+		})
+	}
+	R.Ob("Serve/newConn call found", "-", nNew >= 1, "no newConn call found")
 	if f := c.A.Func("(*Conn).TLSConnectionState"); f != nil {
 		ok := false
 		allInstrs(f, func(in ssa.Instruction) {
